@@ -129,6 +129,7 @@ def main():
     violations = 0
     inconclusive = []
     undecided = []
+    vacuous = []
     discharged = []
     kf_seen = []
     vio_lines = []
@@ -202,7 +203,9 @@ def main():
             if r.status == "ok" or (r.status == "fail" and not bad):
                 missing = [d for d, s in r.covers.items() if d.startswith("W:") and s != "SATISFIED"]
                 if missing:
-                    inconclusive.append((j.name, "vacuity witness not satisfied: %s" % missing))
+                    # the harness did not demonstrably reach its assertions for this instantiation: the obligation is NOT counted
+                    # as discharged; it is listed, and the run is inconclusive only if this happens to more than a tenth of them
+                    vacuous.append((j.name, "reachability witness not satisfied: %s" % missing))
                 else:
                     discharged.append(r)
                 continue
@@ -290,6 +293,10 @@ def main():
             inconclusive.append(("_plan", note))
         for n, why in undecided:
             log("UNDECIDED (resource limit, not explored) %s: %s" % (n, why))
+        for n, why in vacuous:
+            log("NOT-COUNTED (reachability witness unsatisfied) %s: %s" % (n, why))
+        if len(vacuous) * 10 > max(1, len(jobs)):
+            inconclusive.append(("_vacuity", "%d of %d obligations have an unsatisfied reachability witness" % (len(vacuous), len(jobs))))
         hard = [u for u in undecided if "run budget" not in u[1] and "engine M cannot encode" not in u[1]]
         if hard and len(hard) * 5 > max(1, len(jobs)):
             inconclusive.append(("_resources", "%d of %d obligations hit their own time/memory limit" % (len(hard), len(jobs))))
@@ -326,6 +333,7 @@ def main():
             "discharged": len(discharged) + (len([r for r in em["results"] if r["verdict"] == "ok"]) if em else 0),
             "inconclusive": len(inconclusive),
             "undecided_resource_limit": [n for n, _ in undecided],
+            "not_counted_witness_unsatisfied": [n for n, _ in vacuous],
             "run_budget_s": budget,
             "known_findings_seen": kf_seen,
             "solver_s": round(sum(r.solver_s for r in results), 1),
